@@ -1,5 +1,11 @@
 """Registry fragment of the cluster family (C01)."""
 ENGINES = [
+    dict(name="Restart", path="spec/Restart.tla", serves_properties=["C01", "C13", "C16"],
+         kind_free_text="TLA+ spec of one (re)start of jobs.Job inside a living job: start() as ReadCheckpoint / SendDeploys / DeployNode per member / "
+                        "StartSplitter / Run, the store's publication as last acknowledgement (write in flight) / PublishDone enabled at any time, "
+                        "ghost checkpoint ids of every Deploy request and of the splitter, invariant SingleCut; TLC exhaustive with -coverage, "
+                        "transition cover + simulated behaviours + witness schedules of the deviating designs Dev_RereadAfterDeploy / Dev_RereadAtDeploy "
+                        "replayed on the real jobs.Job + snapshots.Store with fake nodes (harness/cmd/membership mode restart, checks/restartlib.py)"),
     dict(name="Recovery", path="spec/Recovery.tla", serves_properties=["C01", "C14"],
          kind_free_text="TLA+ spec of a whole reduction cluster at message granularity (runner reads, per-(runner,operator) channels with "
                         "head-of-line blocking, barrier alignment, operator batching, job checkpoint coordination with acks in any order, "
@@ -12,13 +18,15 @@ CHECKS = {
     "C01": dict(
         engine="Recovery",
         technique="TLA+/TLC model checking of Recovery.tla; TLC-generated kill/ack/delivery schedules replayed on the real in-process cluster "
-                  "through harness-owned adapters (no network, no hooks); recorded seeded free-running runs validated by RecoveryTrace.tla",
+                  "through harness-owned adapters (no network, no hooks); recorded seeded free-running runs validated by RecoveryTrace.tla; one cut per restart: spec/Restart.tla (start() stepped, publication in two steps) replayed on the real jobs.Job with fake nodes, the snapshot write and every step of start() gated (checks/restartlib.py)",
         text="TLC exhaustively checks NoDouble/SeenIsClean/NoLoss/FinalState/ConsistentCut for 2 workers, 2 splits x 2 records, <=2 checkpoints, "
              "<=2 kills of any node set (incl. the job) at every state and every ack order; hundreds of simulated behaviours of the same spec are "
              "forced step by step onto the real Job/SourceRunner/Operator/dkv and judged by the state the real handler is given for every event, "
              "every published job checkpoint read back from the operators' DKV checkpoint files, and the final state; seeded free-running runs with "
              "random ack orders, kill sets and kill moments are validated as traces.",
-        note="Bounded constants; one assembly per job (a restart is a new Job + fresh workers: in-job reassembly is C15); rescale on restart and DKV "
+        note="Bounded constants; one assembly per job (a restart is a new Job + fresh workers; of a re-assembly inside a living job the restart arm "
+             "- Restart.tla stepped through start() of the real jobs.Job with the publication gated - checks that operators and sources resume from "
+             "one cut, the rest is C15); rescale on restart and DKV "
              "flush/compaction under the operators are not exercised (default memtable sizes); watermarks are dropped in replay mode and passed in "
              "trace mode; publication (write + delete old + retention round) is atomic w.r.t. kills; no new checkpoint is started while a "
              "publication is in flight or a node is dead."),
